@@ -268,6 +268,65 @@ def generator_typestate(ctx, rule, scope):
     return n
 
 
+def generator_resume(ctx, rule, scope):
+    """T-resume: a resumable parser generator that reported "more to receive" (yield None) is the one resumed after the
+    wait.  For every next(g) where g holds a fresh call of a generator function: no wait (yield) reachable from that next()
+    may be forced through the creation of a new generator before the next next() - a fresh generator starts from scratch
+    and everything the old one had already consumed from the buffer (header lines, chunk state) is lost."""
+    gens = set()
+    for m in ctx.repo.modules.values():
+        if m.is_test or "/aio/http/" not in m.relpath:
+            continue
+        for fn in ast.walk(m.tree):
+            if isinstance(fn, ast.FunctionDef) and any(isinstance(y, (ast.Yield, ast.YieldFrom)) for y in ast.walk(fn)):
+                gens.add(fn.name)
+    n = 0
+    for q, f in sorted(scope.items()):
+        if "/aio/http/" not in q or not any(isinstance(c, ast.Call) and call_name(c) == "next" for c in ast.walk(f)):
+            continue
+        V = FuncView(ctx, f)
+        cfg = V.cfg
+        ys = [nd for nd in cfg.nodes if any(isinstance(x, ast.Yield) for x in cfg.walk_node(nd))]
+        for nd in cfg.nodes:
+            for c in cfg.walk_node(nd):
+                if not (isinstance(c, ast.Call) and call_name(c) == "next" and c.args):
+                    continue
+                a = c.args[0]
+                if isinstance(a, ast.Call):
+                    made, creators = a, {nd.id}
+                elif isinstance(a, ast.Name):
+                    defs, _ = V.reaching_defs(nd, a.id)
+                    dn = [cfg.nodes[d] for d in defs]
+                    vals = [d.ast.value for d in dn if isinstance(d.ast, ast.Assign) and isinstance(d.ast.value, ast.Call)]
+                    if len(vals) != len(dn) or not vals:
+                        continue
+                    made, creators = vals[0], set(defs)
+                else:
+                    continue
+                name = (call_name(made) or "").split(".")[-1]
+                if name not in gens:
+                    continue
+                n += 1
+                # waits of *this* generator: reached from its next() without driving another parser or closing it first
+                others = [x.id for x in cfg.nodes if x.id != nd.id and any(
+                    isinstance(z, ast.Call) and (call_name(z) == "next" or (isinstance(z.func, ast.Attribute) and z.func.attr == "close"
+                                                                            and isinstance(a, ast.Name) and dotted(z.func.value) == a.id))
+                    for z in cfg.walk_node(x))]
+                after = cfg.reachable(nd.id, removed_nodes=others)
+                bad = None
+                for y in ys:
+                    if y.id not in after or nd.id not in cfg.reachable(y.id):
+                        continue
+                    if nd.id in creators or nd.id not in cfg.reachable(y.id, removed_nodes=list(creators - {y.id})):
+                        bad = y
+                        break
+                ctx.check(bad is None, rule, c, "%s: %s resumes the generator that waited, not a new %s()" % (q.split(":")[1], src(c)[:50], name),
+                          "after `yield None` (more bytes needed) every way back to this next() creates a new %s generator: the lines, "
+                          "header fields or chunk state the previous one had already taken from the buffer are lost when the unit "
+                          "arrives in more than one receive" % name)
+    return n
+
+
 _BA_KEEP = {"strip", "lstrip", "rstrip", "partition", "rpartition", "split", "rsplit", "splitlines", "lower", "upper", "replace",
             "title", "capitalize", "swapcase", "expandtabs", "center", "ljust", "rjust", "zfill", "copy", "translate"}
 
